@@ -12,10 +12,12 @@ W = 1 << 64
 
 class IV:
     """integer-mode value: term (python int or z3 Int), interval [lo, hi], optional 64-bit bit-vector shadow"""
-    __slots__ = ('t', 'lo', 'hi', 'bv')
+    __slots__ = ('t', 'lo', 'hi', 'bv', 'mask')
+    _is_iv = True
 
     def __init__(self, t, lo, hi, bv=None):
         self.t, self.lo, self.hi, self.bv = t, lo, hi, bv
+        self.mask = None   # z3 Bool: value is all-ones when true, zero otherwise (conditional-move masks)
 
     def __repr__(self):
         return 'IV(%s in [%d,%d])' % (self.t, self.lo, self.hi)
@@ -61,9 +63,15 @@ class IntMode:
         key = f['name']
         if key not in self.used_extract:
             m = {}
+            used_regs = set()
             for b in f['blocks']:
                 for ins in b['instrs']:
-                    if ins['op'] == 'Extract':
+                    for a in ins['a']:
+                        if a.get('k') == 'reg':
+                            used_regs.add(a['n'])
+            for b in f['blocks']:
+                for ins in b['instrs']:
+                    if ins['op'] == 'Extract' and ins.get('name') in used_regs:   # go/ssa emits an Extract for `_` too
                         m.setdefault(ins['a'][0]['n'], set()).add(ins['x']['index'])
             self.used_extract[key] = m
         return self.used_extract[key].get(callname, set())
@@ -146,6 +154,13 @@ class IntMode:
             if hi >= W:
                 raise Unsupported('integer mode: wrapping addition with possible overflow')
             return IV(a.t + b.t, a.lo + b.lo, hi, (a.bv + b.bv) if a.bv is not None and b.bv is not None else None)
+        if op == '&':
+            if isinstance(a.t, int):
+                a, b = b, a
+            if isinstance(b.t, int) and a.mask is not None:
+                return IV(z3.If(a.mask, z3.IntVal(b.t), z3.IntVal(0)), 0, b.t, None)
+            if isinstance(b.t, int) and isinstance(a.t, int):
+                return iv(a.t & b.t)
         if op in ('==', '!='):
             if isinstance(a.t, int) and isinstance(b.t, int):
                 return (a.t == b.t) if op == '==' else (a.t != b.t)
@@ -162,7 +177,10 @@ class IntMode:
         c, z, nz = iv(c), iv(z), iv(nz)
         if isinstance(c.t, int):
             return z if c.t == 0 else nz
-        return IV(z3.If(c.t == 0, z.t, nz.t), min(z.lo, nz.lo), max(z.hi, nz.hi), None)
+        r = IV(z3.If(c.t == 0, z.t, nz.t), min(z.lo, nz.lo), max(z.hi, nz.hi), None)
+        if isinstance(z.t, int) and isinstance(nz.t, int) and {z.t, nz.t} == {0, W - 1}:
+            r.mask = (c.t != 0) if nz.t == W - 1 else (c.t == 0)
+        return r
 
 
 def limbs_value(limbs):
